@@ -99,6 +99,9 @@ TIES = {
                 "gcc::client_network_data", "gcc::server_network_data", "gcc::block_header"], GLOBAL_READ, GLOBAL_WRITE),
              ["gcc::client_core_data", "gcc::client_network_data", "gcc::block_header"],
              u(["gcc::Version", "gcc::MessageType"], GLOBAL_ENUMS)),
+    # whole connection: everything read and written from the negotiation to the finalization
+    "C03": T(u(CONNECT_READ, CONNECT_WRITE, GLOBAL_READ, GLOBAL_WRITE, FRAMING), u(CONNECT_WRITE, GLOBAL_WRITE, ["tpkt::tpkt_header"]),
+             u(CONNECT_ENUMS, GLOBAL_ENUMS, ["sec::InfoFlag"])),
     # secrets: the connection request, the NTLM messages, the client info and everything else the connect sequence writes
     "C17": T(u(CONNECT_READ, CONNECT_WRITE, NTLM), u(["x224::rdp_neg_req", "x224::x224_connection_pdu", "sec::rdp_infos"], NTLM),
              u(["x224::NegotiationType", "x224::Protocols", "sec::InfoFlag", "sec::SecurityFlag"], NTLM_ENUMS)),
